@@ -323,6 +323,13 @@ def make_cell(rng, family, min_width, tight_axes, tight=1.02, roomy=(1.6, 3.0), 
         return np.eye(3) * a
     if family == "ortho":
         return np.diag(target)
+    if family == "ortho_rotated":
+        # all angles 90 degrees, but the cell vectors are not along x, y, z (rotated, or axes permuted)
+        c = np.diag(target)
+        if rng.random() < 0.4:
+            perm = rng.choice([[1, 0, 2], [2, 0, 1], [1, 2, 0], [0, 2, 1]])
+            return c[perm] if allow_rotated else c
+        return c @ random_rotation(rng).T if allow_rotated else c
     sign = {"tri_pos": (1, 1, 1), "tri_neg": (-1, -1, -1)}.get(family)
     if sign is None:
         sign = tuple(rng.choice((-1, 1)) for _ in range(3))
